@@ -23,6 +23,7 @@ import vlib
 import C06 as base
 
 VARIANT = 0        # 0 = the library behaves like /repo HEAD; bits 2,3,4 = that former defect is back; bit 5 = notes/fix_C18_3.diff present
+WRAPS = ("select", "gettimeofday", "write")
 PID = "C18"
 PROP_FILE = "Props/Properties_C18.v"
 EXTRACT = "Extract/Extract_C18.vo"
@@ -155,6 +156,19 @@ class Builder:
             c.pending_caps = True
         self.add("rc_connect %d %d" % (cid, 1 if utf8 else 0), ev=[])
         return c
+
+    def rc_sched(self, cid, sched=None):
+        """what the kernel does on the client's next write() calls: short writes and EAGAIN in any pattern"""
+        c = self.conns[cid]
+        if not (c.is_rc and c.alive):
+            return
+        rng = self.rng
+        if sched is None:
+            sched = []
+            for _ in range(rng.randint(1, 40)):
+                r = rng.random()
+                sched.append(0 if r < 0.4 else rng.choice([1, 1, 2, 3, 7, 8, 9, 100, 4096, 70000]))
+        self.add("rc_sched %d %s" % (cid, ",".join(map(str, sched))), ev=[])
 
     def rc_pump(self, cid):
         c = self.conns[cid]
@@ -505,6 +519,8 @@ def case_realclient(rng):
         cid = rng.choice(ids)
         c = b.conns[cid]
         r = rng.random()
+        if r < 0.5 and c.is_rc and rng.random() < 0.6:
+            b.rc_sched(cid)              # the socket takes the next message in dribs and drabs
         if r < 0.25:
             b.put_classic(cid, rnd_text(rng))
         elif r < 0.5 and c.is_rc:
@@ -534,10 +550,14 @@ def case_limits(rng, which):
     elif which == "classic-1MiB-c2s":
         b.rc(0, 0)
         b.put_classic(0, rnd_text(rng, LIMIT, "ramp"))
+        # the same with a socket that is full again and again (900000 bytes, many EAGAIN waits)
+        b.rc_sched(0, [8, 0] + [rng.choice([1, 4096, 65536, 100000]) if i % 2 == 0 else 0 for i in range(300)])
+        b.put_classic(0, rnd_text(rng, 900000, "ramp"))
     elif which == "utf8-big-compressible":
         b.rc(0, 1); b.rc_pump(0)
         b.peer(1, ext=True)
         t = rnd_text(rng, LIMIT - 1, "ascii")
+        b.rc_sched(0, [0, 3, 0, 0, 5, 0, 1, 0, 2000, 0, 0, 1])
         b.put_utf8_rc(0, t)
         b.pubu(t, b"fb")
         b.rc_pump(0)
@@ -588,7 +608,7 @@ def gen_cases(ctx):
 def build(ctx):
     os.makedirs(os.path.join(vlib.BUILD, "ocaml", PID), exist_ok=True)
     os.makedirs(os.path.join(vlib.VERIF, "build", "ocaml", PID), exist_ok=True)
-    cexe = vlib.build_harness("vdrv_clip", ["vdrv_clip.c"], wraps=("select", "gettimeofday"), client=True)
+    cexe = vlib.build_harness("vdrv_clip", ["vdrv_clip.c"], wraps=WRAPS, client=True)
     proof_ok = vlib.prove(ctx, PROP_FILE, [EXTRACT])
     src = os.path.join(vlib.VERIF, "build", "ocaml", PID)
     dst = os.path.join(vlib.BUILD, "ocaml", PID)
@@ -861,7 +881,7 @@ def replay_script(ctx, txt, cexe=None, mexe=None):
     lines = [l for l in body.split("\n") if l.strip()]
     if cexe is None:
         os.makedirs(os.path.join(vlib.BUILD, "ocaml", PID), exist_ok=True)
-        cexe = vlib.build_harness("vdrv_clip", ["vdrv_clip.c"], wraps=("select", "gettimeofday"), client=True)
+        cexe = vlib.build_harness("vdrv_clip", ["vdrv_clip.c"], wraps=WRAPS, client=True)
         src, dst = os.path.join(vlib.VERIF, "build", "ocaml", PID), os.path.join(vlib.BUILD, "ocaml", PID)
         if os.path.abspath(src) != os.path.abspath(dst):
             for fn in ("model.ml", "model.mli"):
